@@ -5,7 +5,7 @@
 //! bytes, the value decoded again, and a canonical-layout flag read through the verif hooks.
 use dashu_base::{BitTest, DivRem, DivRemEuclid, EstimatedLog2, ExtendedGcd, Gcd, SquareRoot};
 use dashu_int::fast_div::ConstDivisor;
-use dashu_int::verif_hooks::{repr_layout_ibig, repr_layout_ubig};
+use dashu_int::verif_hooks::{mul_kernel, repr_layout_ibig, repr_layout_ubig, MUL_PARAMS};
 use hlib::*;
 use std::str::FromStr;
 
@@ -407,12 +407,49 @@ fn run(op: &str, a: &[&str]) -> String {
                 Err(_) => "err decode".to_string(),
             }
         }),
+        // kmul <which> <positive 0/1> <c> <a> <b>: c + (+-) a * b through ONE multiplication kernel (1 = schoolbook,
+        // 2 = Karatsuba, 3 = Toom-3, 0 = size dispatch) on the word slices of THIS build: a and b take the number of
+        // words they need here (a the longer one), c is the accumulator of len(a) + len(b) words.  The answer is the
+        // word-size-free total  value(c') + carry * B^len(c)  (as a signed integer), then len=<len(a)>,<len(b)> in words of this build.
+        "kmul" => {
+            let which = u8::from_str_radix(a[0], 16).unwrap();
+            let positive = a[1] == "1";
+            let (x, y) = (ubig(a[3]), ubig(a[4]));
+            let (xw, yw): (Vec<Word>, Vec<Word>) = (x.as_words().to_vec(), y.as_words().to_vec());
+            let (xw, yw) = if xw.len() >= yw.len() { (xw, yw) } else { (yw, xw) };
+            let n = xw.len() + yw.len();
+            let cv = ubig(a[2]);
+            let mut c: Vec<Word> = cv.as_words().to_vec();
+            assert!(c.len() <= n, "accumulator too long for this build");
+            c.resize(n, 0);
+            let carry = mul_kernel(which, &mut c, positive, &xw, &yw);
+            let total = IBig::from(UBig::from_words(&c)) + (IBig::from(carry as i128) << (n * WB));
+            format!("ok {} len={:x},{:x}", hi(&total), xw.len(), yw.len())
+        }
+        // the thresholds of mul (counted in words: identical numbers, different operand sizes in the two word sizes)
+        "mulparams" => {
+            let (t1, t2, m1, m2) = MUL_PARAMS;
+            format!("ok {:x} {:x} {:x} {:x}", t1, t2, m1, m2)
+        }
         // which build is this?  (word bits, debug assertions) - informational, canonicalised away
-        "config" => format!("ok config {:x} {}", WB, b01(cfg!(debug_assertions))),
+        // the cfg values the architecture chain of integer/src/arch/mod.rs tests: fb=<force_bits or ->, the target
+        // architecture and pointer width (the oracle runs the regenerated chain on them and must arrive at WB)
+        "config" => {
+            let fb = if cfg!(force_bits = "16") { "16" } else if cfg!(force_bits = "32") { "32" } else if cfg!(force_bits = "64") { "64" } else { "-" };
+            format!("ok config {:x} {} fb={} arch={} pw={}", WB, b01(cfg!(debug_assertions)), fb, std::env::consts::ARCH, usize::BITS)
+        }
         _ => format!("err unknown-op-{}", op),
     }
 }
 
+/// every `ok` answer carries the word size of the build as its second token (`wb=40` / `wb=20`): the oracle runs
+/// the word-level as-is models at exactly that word size; the token is canonicalised away before builds are diffed
 fn main() {
-    serve(run);
+    serve(|op, a| {
+        let r = run(op, a);
+        match r.strip_prefix("ok ") {
+            Some(rest) => format!("ok wb={:x} {}", WB, rest),
+            None => r,
+        }
+    });
 }
